@@ -36,6 +36,43 @@ ASSUMPTIONS = ['np.argsort modelled as a stable insertion sort: exact for distin
 
 QS = [0.16, 0.5, 0.84]
 
+# source tie (harness/translate.py, dialect 'obj' of harness/translate_obj.py -> lean/TaurexModel/Gen/SrcC09.lean, tied to
+# TaurexModel/Posterior.lean in lean/Props/C09Src.lean).  numpy's argsort / add.accumulate / interp are externals.
+_QEXT = {'np.argsort': ('argsort', ['list'], 'natlist'), 'np.add.accumulate': ('accumulate', ['list'], 'list'),
+         'np.interp': ('interp', ['list', 'list', 'list'], 'list')}
+_NEST = {'modes_array[nmode]': ('tracedata', 'list2'), 'modes_weights[nmode]': ('weights', 'list'),
+         "NEST_stats['modes'][nmode]['maximum a posterior']": ('nest_map', 'list'),
+         "NEST_stats['modes'][nmode]['mean']": ('nest_mean', 'list'),
+         "NEST_stats['modes'][nmode]['sigma']": ('nest_sigma', 'list')}
+SRC_SPECS = [
+    dict(module='taurex/util/util.py', func='quantile_corner', lean='quantile_corner', dialect='obj',
+         params=dict(x='list', q='list', weights='list'), list_externals=_QEXT, returns='list'),
+    # one iteration of the per-parameter loop of store_nestle_output: the record stored for fitted parameter `idx`
+    dict(module='taurex/optimizer/nestle.py', cls='NestleOptimizer', func='store_nestle_output', lean='nestle_param',
+         dialect='obj', loop_body='enumerate(fit_param)', free=['samples', 'weights', 'mean', 'cov', 'max_weight'],
+         params=dict(idx='nat', param_name='skip', samples='list2', weights='list', mean='list', cov='skip',
+                     max_weight='nat'),
+         result='param', dict_skip=['sigma'],           # 'sigma' = cov[idx], a row of nestle's covariance (pass-through)
+         ignore_calls=r'^self\.(debug|info|warning|error|critical)\(|^table_data\.append\('),   # table_data is never read
+    # the same loop in store_nest_solutions / store_polychord_solutions, for one mode `nmode`: the dict display stored for
+    # fitted parameter `idx` (the sampler's own statistics NEST_stats[...] are pass-through parameters)
+    dict(module='taurex/optimizer/multinest.py', cls='MultiNestOptimizer', func='store_nest_solutions', lean='multinest_param',
+         dialect='obj', loop_body='enumerate(self.fit_names)', free=[], params=dict(idx='nat', param_name='skip'),
+         attrs=_NEST, result='{}'),
+    dict(module='taurex/optimizer/polychord.py', cls='PolyChordOptimizer', func='store_polychord_solutions',
+         lean='polychord_param', dialect='obj', loop_body='enumerate(self.fit_names)', free=[],
+         params=dict(idx='nat', param_name='skip'), attrs=_NEST, result='{}'),
+    # one iteration of the per-parameter loop of compute_derived_trace: the gathered trace / weights are put back into
+    # sample order (`[restore]`) and summarised by the same quantile rule
+    dict(module='taurex/optimizer/optimizer.py', cls='Optimizer', func='compute_derived_trace', lean='derived_param',
+         dialect='obj', loop_body='derived_param.items()', free=['restore'],
+         params=dict(param='skip', trace='list', w='list', restore='natlist'),
+         attrs={"mpi.allreduce(trace, op='SUM')": ('gathered_trace', 'list'),
+                "mpi.allreduce(w, op='SUM')": ('gathered_w', 'list')},
+         list_externals=dict(_QEXT, **{'np.average': ('average', ['list', 'list'], 's', ('weights',), {'axis': '0'})}),
+         result='derived'),
+]
+
 
 # ------------------------------------------------------------------------------------------ oracles
 def oracle_quantile(x, w, q):
